@@ -421,15 +421,47 @@ func (vm *VM) intBinopSym(op token.Token, x, y Value, bits int, signed bool, sit
 			return wr(q)
 		}
 		return wr(smt.Sub(a, smt.Mul(q, b)))
-	case token.AND:
+	case token.AND, token.OR, token.XOR, token.AND_NOT:
 		// x & (2^k - 1) == x mod 2^k for non-negative masks of that shape
-		if b.Op == smt.OpIntConst && b.K.Sign() >= 0 {
+		if op == token.AND && b.Op == smt.OpIntConst && b.K.Sign() >= 0 {
 			m := new(big.Int).Add(b.K, big.NewInt(1))
 			if m.BitLen() > 0 && new(big.Int).And(m, b.K).Sign() == 0 {
 				return fromIntTerm(smt.Mod(a, smt.Int(m)), bits, signed)
 			}
 		}
-		vmErr("bitwise AND on symbolic machine integer")
+		// one constant operand: decompose over the bits of the constant
+		x, k := a, b
+		if x.Op == smt.OpIntConst && k.Op != smt.OpIntConst && op != token.AND_NOT {
+			x, k = k, x
+		}
+		if k.Op != smt.OpIntConst {
+			vmErr("bitwise %s on two symbolic machine integers", op)
+		}
+		mod := pow2(bits)
+		ku := new(big.Int).Mod(k.K, mod) // unsigned view of the constant
+		xu := smt.Mod(x, smt.Int(mod))   // unsigned view of the value
+		res := xu
+		if op == token.AND {
+			res = smt.Int64(0)
+		}
+		for j := 0; j < bits; j++ {
+			if ku.Bit(j) == 0 {
+				continue
+			}
+			p := smt.Int(pow2(j))
+			bit := smt.Mod(smt.Div(xu, p), smt.Int64(2))
+			switch op {
+			case token.AND:
+				res = smt.Add(res, smt.Mul(bit, p))
+			case token.OR:
+				res = smt.Add(res, smt.Mul(smt.Sub(smt.Int64(1), bit), p))
+			case token.XOR:
+				res = smt.Add(res, smt.Mul(smt.Sub(smt.Int64(1), smt.Mul(bit, smt.Int64(2))), p))
+			case token.AND_NOT:
+				res = smt.Sub(res, smt.Mul(bit, p))
+			}
+		}
+		return wr(res)
 	case token.EQL:
 		return fromBoolTerm(smt.Eq(a, b))
 	case token.NEQ:
@@ -544,6 +576,9 @@ func (vm *VM) convert(from, to types.Type, v Value) Value {
 		switch fx := fu.(type) {
 		case *types.Slice:
 			eb := fx.Elem().Underlying().(*types.Basic)
+			if sb, ok := v.(*SymBytes); ok {
+				return sb.S
+			}
 			s := v.(Slice)
 			if eb.Kind() == types.Byte || eb.Kind() == types.Uint8 {
 				return strFromBytes(append([]Value{}, s...))
@@ -567,6 +602,12 @@ func (vm *VM) convert(from, to types.Type, v Value) Value {
 		if fb, ok := fu.(*types.Basic); ok && fb.Info()&types.IsString != 0 {
 			eb := ts.Elem().Underlying().(*types.Basic)
 			if eb.Kind() == types.Byte || eb.Kind() == types.Uint8 {
+				if _, isOp := v.(*Opaque); isOp {
+					return &SymBytes{S: v}
+				}
+				if hasDec(atomsOf(v)) {
+					return &SymBytes{S: v}
+				}
 				return Slice(strBytes(v))
 			}
 			s, ok := v.(string)
